@@ -91,6 +91,84 @@ def load_selfies():
     return sf
 
 
+class StrSub(str):
+    """What callers really pass: numpy.str_, pandas values, enum members ... are str subclasses."""
+    __slots__ = ()
+
+
+# public functions whose call form is varied: name -> parameter names in declared order
+_FORMS = {"decoder": ("selfies", "compatible", "attribute"), "encoder": ("smiles", "strict", "attribute"),
+          "len_selfies": ("selfies",), "split_selfies": ("selfies",),
+          "selfies_to_encoding": ("selfies", "vocab_stoi", "pad_to_len", "enc_type"),
+          "encoding_to_selfies": ("encoding", "vocab_itos", "enc_type"),
+          "get_preset_constraints": ("name",), "set_semantic_constraints": ("bond_constraints",)}
+
+
+class VariedAPI(object):
+    """The package seen through the call forms of an everyday caller.  Every call of the listed public functions
+    goes to the real function with the same argument VALUES; in a share of the calls the form differs: leading
+    argument by keyword, flags positionally, string arguments as instances of a str subclass.  On a tree where the
+    property holds the form cannot matter, so no oracle changes.  Everything else is forwarded untouched."""
+
+    def __init__(self, sf, seed, p=0.12):
+        import inspect
+        import random
+        object.__setattr__(self, "_sf", sf)
+        object.__setattr__(self, "_rng", random.Random(seed))
+        object.__setattr__(self, "_p", p)
+        names = {}
+        for fn, params in _FORMS.items():
+            try:
+                real = tuple(inspect.signature(getattr(sf, fn)).parameters)
+            except (AttributeError, TypeError, ValueError):
+                continue
+            if real[:len(params)] == params:       # only vary what the tree under test declares exactly like this
+                names[fn] = params
+        object.__setattr__(self, "_names", names)
+        object.__setattr__(self, "varied_calls", 0)
+
+    def __getattr__(self, name):
+        v = getattr(self._sf, name)
+        params = self._names.get(name)
+        if params is None:
+            return v
+        rng, p = self._rng, self._p
+
+        def call(*args, **kwargs):
+            x = rng.random()
+            if x >= p or len(args) > len(params):
+                return v(*args, **kwargs)
+            object.__setattr__(self, "varied_calls", self.varied_calls + 1)
+            args = list(args)
+            if x < p * 0.4:
+                args = [StrSub(a) if type(a) is str else a for a in args]
+                kwargs = {k: (StrSub(a) if type(a) is str else a) for k, a in kwargs.items()}
+                return v(*args, **kwargs)
+            if x < p * 0.75:
+                # everything by keyword
+                kw = dict(kwargs)
+                for k, a in zip(params, args):
+                    kw[k] = a
+                return v(**kw)
+            # flags positionally, in declared order, as far as they are given without a gap
+            kw = dict(kwargs)
+            for k in params[len(args):]:
+                if k not in kw:
+                    break
+                args.append(kw.pop(k))
+            return v(*args, **kw)
+        return call
+
+    def __setattr__(self, name, value):
+        setattr(self._sf, name, value)
+
+
+def varied(sf, ctx):
+    api = VariedAPI(sf, "%s/%s/%s/forms" % (ctx.seed, ctx.prop, ctx.shard))
+    ctx.apis.append(api)
+    return api
+
+
 def mods():
     """The modules of the code under test (the package rebinds the names
     `encoder` / `decoder` to functions, so go through sys.modules)."""
